@@ -101,6 +101,8 @@ type World struct {
 	Events  uint64
 	CapHit  bool
 	PortDev map[messaging.RemotePort][2]int
+	// Bare: run without the event-cap hook on the engine (C33's unobserved baseline)
+	Bare bool
 	// table handles for generic networks (one per switch, in index order)
 	Tables []routing.Table
 }
@@ -250,12 +252,31 @@ func (w *World) onRecv(dev, port int, p messaging.Port, m messaging.Msg) {
 	}
 }
 
-type engHook struct{ w *World }
-
 type capStop struct{}
 
 // Build constructs the network and its devices.
 func Build(c *Net) *World {
+	w := Build0(c)
+	freq := timing.Freq(c.FreqHz)
+
+	switch c.Kind {
+	case "generic":
+		w.buildGeneric(freq)
+	case "mesh":
+		w.buildMesh(freq)
+	case "pcie":
+		w.buildPCIe(freq)
+	case "nvlink":
+		w.buildNVLink(freq)
+	default:
+		panic(kit.HarnessError("unknown network kind " + c.Kind))
+	}
+
+	return w
+}
+
+// Build0 creates the engine and the devices only.
+func Build0(c *Net) *World {
 	timing.ResetIDGenerator()
 	timing.UseSequentialIDGenerator()
 	tracing.VerifResetRegistries()
@@ -289,19 +310,6 @@ func Build(c *Net) *World {
 	}
 
 	w.SentAt = make([]uint64, len(c.Msgs))
-
-	switch c.Kind {
-	case "generic":
-		w.buildGeneric(freq)
-	case "mesh":
-		w.buildMesh(freq)
-	case "pcie":
-		w.buildPCIe(freq)
-	case "nvlink":
-		w.buildNVLink(freq)
-	default:
-		panic(kit.HarnessError("unknown network kind " + c.Kind))
-	}
 
 	return w
 }
@@ -420,7 +428,9 @@ func (w *World) Run() {
 		}
 	}
 
-	w.Eng.AcceptHook(capHook{w})
+	if !w.Bare {
+		w.Eng.AcceptHook(capHook{w})
+	}
 
 	func() {
 		defer func() {
